@@ -49,7 +49,7 @@ func (c20) Runs(tier string) int {
 	if tier == "thorough" {
 		return 30000
 	}
-	return 400
+	return 1000
 }
 func (c20) RequiredProbes(string) []string { return []string{"case_reached_router"} }
 
